@@ -1,4 +1,5 @@
 import OxiModel.Chunks
+import OxiModel.LosslessProofs
 /-
   C02 — output is always a well-formed PNG/APNG (container level).
 -/
@@ -237,5 +238,115 @@ theorem placement (p : PngData) :
 /-- Non-vacuity: fields round-trip and the hypotheses of the framing theorem are satisfiable. -/
 example : readBE (be32 300) = 300 ∧ Framable ⟨[80, 76, 84, 69], [1, 2, 3]⟩ := by
   refine ⟨by decide, rfl, by decide⟩
+
+/-! ### palettes produced by the reductions stay well-formed -/
+section palettes
+open OxiModel.Spec
+
+/-- **Conversion to a palette gives a palette of at most 256 entries and only indices inside it.** -/
+theorem to_indexed_wellformed (i j : Img) (ag : Bool) (h : reducedToIndexed i ag = some j) :
+    ∃ pal, j.ihdr.ct = .indexed pal ∧ pal.length ≤ 256 ∧ j.ihdr.depth = 8 ∧ ∀ b ∈ j.data, b.toNat < pal.length := by
+  unfold reducedToIndexed at h
+  by_cases hd : i.ihdr.depth = 8
+  · simp only [hd, ne_eq, not_true_eq_false, if_false] at h
+    split at h
+    · cases h
+    · split at h
+      · cases h
+      · cases hb : buildPalette (chunksExact i.ihdr.ct.channels i.data) [] [] with
+        | none => simp [hb] at h
+        | some pr =>
+          obtain ⟨pmap, raw⟩ := pr
+          simp only [hb, Option.some.injEq] at h
+          subst h
+          obtain ⟨idxs, h1, h2, _, h4⟩ := buildPalette_spec _ [] [] pmap raw hb (by simp)
+          simp only [List.reverse_nil, List.nil_append] at h1
+          subst h1
+          refine ⟨pmap.map (paletteEntry i.ihdr.ct), rfl, by simpa using h4, rfl, ?_⟩
+          intro b hb'
+          simp only [List.length_map]
+          -- the index of b points at a pixel, so it is inside the map
+          have : (fun b : UInt8 => pmap[b.toNat]?) b ∈ raw.map (fun b => pmap[b.toNat]?) := List.mem_map_of_mem hb'
+          rw [h2] at this
+          obtain ⟨px, _, hpx⟩ := List.mem_map.mp this
+          exact lt_of_getElem?_some _ _ _ hpx.symm
+  · simp [hd] at h
+
+/-- **Condensing the palette keeps every index inside the (new) palette, which has at most 256 entries.** -/
+theorem reduced_palette_wellformed (i j : Img) (h : reducedPalette i false = some j) :
+    ∃ pal, j.ihdr.ct = .indexed pal ∧ pal.length ≤ 256 ∧ ∀ b ∈ j.data, b.toNat < pal.length := by
+  unfold reducedPalette at h
+  by_cases hd : i.ihdr.depth = 8
+  · simp only [hd, ne_eq, not_true_eq_false, if_false] at h
+    cases hc : i.ihdr.ct with
+    | indexed palette =>
+      simp only [hc] at h
+      have hu : ((List.range 256).filter fun k => i.data.contains (UInt8.ofNat k)).length ≤ 256 := by
+        have := List.length_filter_le (fun k => i.data.contains (UInt8.ofNat k)) (List.range 256)
+        simpa using this
+      have hmemU := used_mem i.data
+      generalize ((List.range 256).filter fun k => i.data.contains (UInt8.ofNat k)) = U at h hu hmemU
+      obtain ⟨hinv, hlen⟩ := palFold_inv palette U ([], [], false) [] (by intro k hk; cases hk) (by simpa using hu)
+      generalize List.foldl (palStep palette false) ([], [], false) U = st at h hinv hlen
+      have key : ∀ b ∈ i.data, ∃ idx, st.2.1.lookup b.toNat = some idx ∧
+          st.1[idx]? = some (palette.getD b.toNat blackEntry) ∧ (st.2.2 = false → idx = b.toNat) := by
+        intro b hb
+        exact hinv b.toNat (by simpa using hmemU b hb)
+      cases hch : st.2.2
+      case true =>
+        simp only [hch, if_true, Option.some.injEq] at h
+        subst h
+        refine ⟨st.1, rfl, hlen, ?_⟩
+        intro b hb
+        obtain ⟨b0, hb0, rfl⟩ := List.mem_map.mp hb
+        obtain ⟨idx, h1, h2, _⟩ := key b0 hb0
+        have hlt := lt_of_getElem?_some _ _ _ h2
+        rw [lookup_getD_ofNat _ _ idx h1 (by omega)]
+        exact hlt
+      case false =>
+        simp only [hch, Bool.false_eq_true, if_false] at h
+        split at h
+        · simp only [Option.some.injEq] at h
+          subst h
+          refine ⟨st.1, rfl, hlen, ?_⟩
+          intro b hb
+          obtain ⟨idx, _, h2, h3⟩ := key b hb
+          have := h3 hch
+          subst this
+          exact lt_of_getElem?_some _ _ _ h2
+        · cases h
+    | gray t => simp [hc] at h
+    | rgb t => simp [hc] at h
+    | grayAlpha => simp [hc] at h
+    | rgba => simp [hc] at h
+  · simp [hd] at h
+
+/-- **Reducing the bit depth of an indexed image keeps the palette addressable**: the new depth `d`
+    satisfies `palette.length ≤ 2^d` (the palette itself is untouched). -/
+theorem depth_reduction_palette_fits (i j : Img) (pal : List Rgba) (hc : i.ihdr.ct = .indexed pal)
+    (h : reducedBitDepth8OrLess i = some j) :
+    j.ihdr.ct = .indexed pal ∧ pal.length ≤ 2 ^ j.ihdr.depth ∧ (j.ihdr.depth = 1 ∨ j.ihdr.depth = 2 ∨ j.ihdr.depth = 4) := by
+  unfold reducedBitDepth8OrLess at h
+  split at h
+  · cases h
+  · simp only [hc] at h
+    cases hs : i.scanLines false with
+    | none => simp [hs] at h
+    | some lines =>
+      by_cases h2 : pal.length ≤ 2
+      · simp only [h2, if_true, hs, Option.some.injEq] at h
+        subst h
+        exact ⟨rfl, by simpa using h2, Or.inl rfl⟩
+      · by_cases h4 : pal.length ≤ 4
+        · simp only [h2, h4, if_true, if_false, hs, Option.some.injEq] at h
+          subst h
+          exact ⟨rfl, by simpa using h4, Or.inr (Or.inl rfl)⟩
+        · by_cases h16 : pal.length ≤ 16
+          · simp only [h2, h4, h16, if_true, if_false, hs, Option.some.injEq] at h
+            subst h
+            exact ⟨rfl, by simpa using h16, Or.inr (Or.inr rfl)⟩
+          · simp [h2, h4, h16] at h
+
+end palettes
 
 end OxiModel.C02
